@@ -48,7 +48,7 @@ func write(ctx context.Context, st state.State, i int) {
 		}
 	}
 	var err error
-	switch i % 9 {
+	switch i % 10 {
 	case 0:
 		err = st.Create(ctx, conformance.NewIntResource(hx.NS, "a", 1))
 	case 1, 3, 7:
@@ -63,6 +63,8 @@ func write(ctx context.Context, st state.State, i int) {
 		upd("b")
 	case 8:
 		err = st.Destroy(ctx, hx.IntPtr("b"))
+	case 9:
+		err = st.Destroy(ctx, hx.IntPtr("a")) // back to the empty state: the script is a cycle
 	}
 	if err != nil {
 		panic(err)
